@@ -68,6 +68,13 @@ FIXED = [
     ([['hostkey'], ['terminal'], ['password', True], ['terminal'], ['shell', 'sh', '$ ']], {}),
     ([['password', True], ['banner', 'Last login: today\n'], ['shell', 'sh', 'user@h:~$ ']], {'quiet': False, 'port': 2222}),
     ([['hostkey'], ['password', True], ['shell', 'csh', 'h> ']], {'ssh_key': True}),
+    # the answers to the empty lines of the synchronisation step differ in length (a one-off notice before one prompt)
+    ([['password', True], ['replies', '$ ', ['$ ', '$ ', 'You have new mail in /var/mail/me\n$ ', '$ ']], ['shell', 'sh', '$ ']], {}),
+    ([['password', True], ['replies', '$ ', ['$ ', '$ ', 'h$ ', '$ ']], ['shell', 'sh', '$ ']], {}),
+    ([['password', True], ['replies', '$ ', ['$ ', '$ ', '$ ', 'You have new mail in /var/mail/me\n$ ']], ['shell', 'sh', '$ ']], {}),
+    ([['replies', 'menu# ', ['Invalid selection, try again: ', 'Invalid selection, last attempt: ', 'Invalid selection, last attempt: ', 'Console locked.']], ['exit', 1]], {}),
+    ([['password', True], ['replies', 'user@h:~$ ', ['user@h:~$ ', 'user@h:~$ ', '(mail) user@h:~$ ', 'user@h:~$ ']], ['shell', 'sh', 'user@h:~$ ']],
+     {'auto_prompt_reset': False}),
 ]
 
 
